@@ -157,9 +157,14 @@ func verifHistory(r *vrand.Rand) (steps []verifStep, mode string, wrap, nsJitter
 		case "fast":
 			g = r.Pick(0, 0, 1, 1, 1, 1, 2, 3, 9)
 		default:
-			g = r.Intn(10)
+			g = r.Intn(11)
+			if n > 200 && g == 10 {
+				g = 8 // no multi-week gaps in the 70 000-observation histories: 6000 of them would pass the 292 years a time.Duration can hold
+			}
 		}
 		switch g {
+		case 10:
+			st.dt, st.gap = int64(r.Range(600000000, 3000000000)), "weeks" // 7..35 days: the meter's age passes 2^31 ms
 		case 0:
 			st.dt, st.gap = int64(r.Range(1, 999)), "tiny"
 		case 1:
@@ -556,7 +561,7 @@ func TestVerif_C20_Windows(t *testing.T) {
 			}
 		}
 		m.Classf("%s/%s/ns%v/fired%d/n%d/%s", mt.name(), mode, nsJitter, maxFired, verifBucket(len(steps)), strings.Join(evs, "+"))
-		if m.WantSample() && len(steps) <= 8 && maxFired >= 2 {
+		if m.WantSample() && len(steps) <= 8 && maxFired >= 2 && mt.imp.started {
 			m.Sample(map[string]interface{}{"meter": mt.name(), "history_t_ns_counter_sample_avg": mkLog(), "final_rates": []float64{mt.public(0), mt.public(1), mt.public(2)}})
 		}
 	})
